@@ -65,11 +65,8 @@ def check_vec(agg, site, vec, case, seen=None):
         agg.outcomes["untruthful"] += 1
         return
     agg.outcomes["truthful"] += 1
-    # write-back on a private copy (instances of SUBCLASSES of builtin types - struct_time, IsoCalendarDate - are
-    # outside the alphabet: inference maps them to the base kind, the statement does not say which is right)
-    if any(e is not None and type(e) not in CANON_TYPES and isinstance(e, (tuple, list, dict, str, int, float, bytes)) for e in vec._underlying):
-        agg.skipped["subclass-instances-not-written-back"] += 1
-        return
+    # write-back on a private copy - also for instances of SUBCLASSES of builtin types (struct_time, IsoCalendarDate, an IntEnum
+    # member): inference counts them as their base kind, so the vector must take them back
     try:
         w = vec.copy()
     except Exception as e:
@@ -178,6 +175,17 @@ def unit_misc(unit):
             for fk, (f0, _) in VALS.items():
                 run(f"fillna", {"values": a, "fill": f0}, lambda: Vector(list(a)).fillna(f0))
             run("fillna", {"values": a, "fill": None}, lambda: Vector(list(a)).fillna(None))
+        # vectors holding instances of subclasses of the ladder kinds (an int subclass, an IntEnum member, str / float / date /
+        # tuple subclasses), alone and next to plain values, in both orders
+        from props.c04 import IntSub, FloatSub, StrSub, DateSub, TupleSub, Colour
+        subs = {"IntSub": (IntSub(3), 5), "IntEnum": (Colour.RED, 5), "FloatSub": (FloatSub(1.5), 2.5), "StrSub": (StrSub("b"), "a"), "DateSub": (DateSub(2021, 3, 4), D1),
+                "TupleSub": (TupleSub((3,)), (1, 2))}
+        for sname, (sv, plain) in subs.items():
+            for vals in ([sv], [sv, plain], [plain, sv], [sv, None], [None, sv], [sv, sv], [True, sv] if sname in ("IntSub", "IntEnum") else [plain, sv, plain]):
+                run("construct.subclass", {"values": [repr(x) for x in vals], "subclass": sname}, lambda: Vector(list(vals)))
+                run("copy.subclass", {"values": [repr(x) for x in vals], "subclass": sname}, lambda: Vector(list(vals)).copy())
+                run("lshift.subclass", {"values": [repr(x) for x in vals], "subclass": sname}, lambda: Vector(list(vals)) << [sv])
+                run("getitem.subclass", {"values": [repr(x) for x in vals], "subclass": sname}, lambda: Vector(list(vals))[::-1])
         for dflt in (0, 1.5, "x", None, True, D1):
             for n in (0, 1, 2):
                 for ts in ((False, True) if dflt is not None else (False,)):   # typesafe=True with a None default is a contradictory request
